@@ -18,7 +18,7 @@ RULE = ('case = up to 6 requests with patterns sharing prefixes of length 1..4 a
         '(request script, loss script, observed transmission-time vector).')
 ASSUMPTIONS = ['virtual time: library processing takes zero time, so retransmission instants are exact',
                'two requests with identical patterns pending at once are not generated (the library keys timers by pattern)']
-REQUIRED = ['mon.requests', 'mon.retransmissions_expected', 'mon.retransmissions_observed', 'mon.cancelled_by_reply',
+REQUIRED = ['mon.sessions_ended_by_a_link_error_with_requests_pending', 'mon.connection_attempts_failed_with_requests_pending', 'mon.requests', 'mon.retransmissions_expected', 'mon.retransmissions_observed', 'mon.cancelled_by_reply',
             'mon.never_answered_windows', 'mon.reliable_link_cases', 'mon.close_reopen_cases', 'mon.timers_observed',
             'mon.shared_prefix_cases', 'mon.requests_sent_while_the_link_was_being_closed',
             'mon.radio_link_mode_flag_checks', 'mon.usb_driver_close_cases']
@@ -35,6 +35,8 @@ def cases(tier, seed):
         kind = ('patterns', 'patterns', 'reopen', 'reliable', 'patterns', 'reopen')[i % 6]
         out.append({'seed': seed * 1000003 + i, 'kind': kind, 'nreq': rnd.randint(1, 6),
                     'sched': rnd.choice(('rtb', 'random', 'pct')), 'quarter': rnd.randint(0, 11)})
+    out += [{'seed': seed * 11 + i, 'kind': ('failopen', 'lostreopen')[i % 2], 'sched': rnd.choice(('rtb', 'random', 'pct'))}
+            for i in range(60 if tier == 'quick' else 400)]
     out += [{'seed': seed * 7 + i, 'kind': 'radioflag'} for i in range(2 if tier == 'quick' else 12)]
     out += [{'seed': seed * 5 + i, 'kind': 'usbclose'} for i in range(2 if tier == 'quick' else 12)]
     return out
@@ -177,8 +179,120 @@ def run_usbclose(desc, ctx):
             ctx.violate('retry:usb:nothing-written-while-the-link-was-open', info, replay={'kind': 'usbclose', 'seed': desc['seed']})
 
 
+def run_lost(desc, ctx):
+    """A session that ends through a link error - while the connection is still being set up (nothing received yet:
+    connection_failed) or while connected (connection_lost) - with requests still pending, and a new session soon after:
+    no request of the dead session is transmitted in the new one."""
+    from vf import detsched as ds, simlink
+    from cflib.crazyflie import Crazyflie
+    from cflib.crtp.crtpstack import CRTPPacket
+    rnd = random.Random(desc['seed'])
+    prof = gen.profile(desc['seed'], 1, 1, proto=10)
+    early = desc['kind'] == 'failopen'
+    reqs = []
+    for i in range(rnd.randint(1, 4)):
+        reqs.append({'uid': 200 + i, 'chan': rnd.randrange(4), 'pattern': [rnd.randrange(1, 250) for _ in range(rnd.randint(1, 3))],
+                     'T': rnd.choice((0.05, 0.2, 0.2, 1.0)), 'lose_tx': 0, 'lose_reply': 0, 'delay': None, 'reply': b''})
+    dev = Responder(prof, {r['uid']: r for r in reqs})
+    spec = simlink.LinkSpec(dev, needs_resending=True, latency=0.0)
+    uri = 'sim://c10lost'
+    simlink.SIMS[uri] = spec
+    ob = {'problems': []}
+
+    def fn(s):
+        dev.now = lambda: s.now
+        cf = Crazyflie()
+        done, failed, lost = ds.Event(), ds.Event(), ds.Event()
+        cf.connected.add_callback(lambda u: done.set())
+        cf.connection_failed.add_callback(lambda u, m: failed.set())
+        cf.connection_lost.add_callback(lambda u, m: lost.set())
+        spec.fail_reporter = rnd.choice(('driver', 'sender'))
+        if early:
+            # the Crazyflie is not there: nothing is ever received, the driver gives up after some transmissions
+            spec.tx_filter = lambda sp, n, h, d: False
+            spec.fail_after_tx = rnd.randint(2, 8)
+            cf.open_link(uri)
+        else:
+            cf.open_link(uri)
+            if not done.wait(300.0):
+                ob['problems'].append('connect failed')
+                return
+            s.sleep(0.35)
+        ob['session1'] = cf.link.session if cf.link is not None else None
+        ob['t_base'] = s.now
+        for r in reqs:
+            pk = CRTPPacket()
+            pk.set_header(PORT, r['chan'])
+            pk.data = bytes(r['pattern']) + bytes([r['uid']])
+            cf.send_packet(pk, expected_reply=tuple(r['pattern']), timeout=r['T'])
+        T0 = reqs[0]['T']
+        if early:
+            if not failed.wait(60.0):
+                ob['problems'].append('the failing connection attempt was never reported')
+                return
+        else:
+            s.sleep(rnd.choice((0.0, T0 / 4.0, T0 * 0.75, T0 * 1.5)))
+            link = cf.link
+            if link is None:
+                ob['problems'].append('link gone before the fault')
+                return
+            link._fault()
+            if not lost.wait(60.0):
+                ob['problems'].append('the lost link was never reported')
+                return
+        ob['error_at'] = s.now
+        ob['state_after_error'] = str(cf.state)
+        s.sleep(rnd.choice((0.0, T0 / 4.0, T0 / 2.0, T0 * 0.75)))
+        spec.tx_filter = None
+        spec.fail_after_tx = None
+        ob['reopen_at'] = s.now
+        done.clear()
+        cf.open_link(uri)
+        if not done.wait(300.0):
+            ob['problems'].append('second connect failed')
+            return
+        s.sleep(max(r['T'] for r in reqs) * 3 + 1.0)
+        ob['patterns_left'] = len(cf._answer_patterns)
+        cf.close_link()
+        s.sleep(0.5)
+    _, abort, s = harness.sched_case(fn, seed=desc['seed'], policy=desc['sched'], line_p=harness.line_p_for(desc['seed'], 6, 0.15), horizon=5000.0,
+                                     max_steps=12_000_000)
+    ctx.evals()
+    rp = dict(desc)
+    ctx.count('mon.sessions_ended_by_a_link_error_with_requests_pending')
+    if early:
+        ctx.count('mon.connection_attempts_failed_with_requests_pending')
+    if abort is not None:
+        ctx.violate('retry:hang:%s' % type(abort).__name__, {'abort': str(abort), 'threads': abort.table}, replay=rp)
+        return
+    for (name, exc, tb) in s.deaths:
+        ctx.violate('retry:thread-died:%s:%s' % (name.split('#')[0], exc.split('(')[0]), {'traceback': tb}, replay=rp)
+    if ob['problems']:
+        ctx.violate('retry:lost-session:' + ob['problems'][0].replace(' ', '-'), {'kind': desc['kind']}, replay=rp)
+        return
+    uids = {r['uid'] for r in reqs}
+    mine = [t for t in spec.tx if (t[2] >> 4) & 0xF == PORT and t[3] and t[3][-1] in uids]
+    ctx.count('mon.requests', len(reqs))
+    ctx.count('mon.retransmissions_observed', max(0, len([t for t in mine if t[1] == ob['session1']]) - len(reqs)))
+    later = [t for t in mine if t[1] != ob['session1']]
+    ctx.nontrivial((desc['kind'], core.h64([(r['pattern'], r['T']) for r in reqs]), s.signature()))
+    if later:
+        ctx.violate('retry:request-of-an-earlier-session-transmitted-in-a-later-session',
+                    {'how_the_session_ended': 'connection attempt failed' if early else 'link lost while connected',
+                     'packets': [(round(t[0] - ob['t_base'], 6), t[3].hex()) for t in later[:4]],
+                     'error_offset': round(ob['error_at'] - ob['t_base'], 6), 'reopen_offset': round(ob['reopen_at'] - ob['t_base'], 6),
+                     'state_after_error': ob.get('state_after_error')}, replay=rp)
+    # (a retry that was already past the link test when the error arrived calls send_packet() of the closed driver
+    # object, which transmits nothing: observed, not judged - see DESIGN section 6)
+    ctx.count('obs.send_packet_calls_on_the_closed_driver_object', len(spec.tx_after_close))
+    if ob.get('patterns_left'):
+        ctx.count('obs.patterns_left_registered_in_the_new_session', ob['patterns_left'])
+
+
 def run(desc, ctx):
     harness.init()
+    if desc.get('kind') in ('failopen', 'lostreopen'):
+        return run_lost(desc, ctx)
     if desc.get('kind') == 'radioflag':
         return run_radioflag(desc, ctx)
     if desc.get('kind') == 'usbclose':
